@@ -6,6 +6,7 @@ CONSTANTS
   MaxFaults = 0
   Pools = {1, 2, 5}
   Pars = {FALSE, TRUE}
+  PreKinds = {"none"}
   CrashKinds = {"quiet"}
   BurstSizes = {19, 20, 30, 60, 100}
   BurstHolds = {"error"}
